@@ -19,6 +19,7 @@
 From Coq Require Import NArith ZArith List Bool Ascii String.
 Require Import Board Move GameOver PtnMove Playtak Tps TpsFacts TpsFacts2 TpsFacts3 TpsFacts4 TpsFacts5 TpsFacts6 TpsFacts7 TpsFacts8.
 Require Import Alloc Preserve1 Preserve5 Reach1 Generated.Consts TpsFacts9 Import1 Import3 Import7.
+Require Tei TeiClient TeiClientFacts.
 Import ListNotations.
 
 (* Square layer: the text tpsSquare writes for one square parses back, through the stack branch of parseRow, to
@@ -164,3 +165,21 @@ Theorem C10_nonvacuous : forall basis,
   canonical_tps (bytes_of "x4,2/x5/x2,21S,x2/x,2112212C,x3/1,x2,1C,x 2 7").
 Proof. exact ex_all. Qed.
 Print Assumptions C10_nonvacuous.
+
+(* The property's third observation point, the TEI client's `position tps` line (third wave; model coq/TeiClient.v, proof
+   coq/TeiClientFacts.v): the line tei.Player.TEIGetMove writes is "position tps " followed by FormatTPS's text, and the engine
+   (model coq/Tei.v: strings.Fields, parsePosition, ParseTPS) that reads it after `teinewgame <size p>` - from whatever state, with
+   whatever searcher - keeps running and holds a position q that is Equal to p both ways, with the same hash, reserves, side to
+   move and move number.  Hypotheses: those of C10_tps_format_parse_equal. *)
+Theorem C10_client_line_roundtrip :
+  forall (basis : list N) (SS : Type) (mk_searcher : Z -> SS)
+         (search : SS -> option Z -> position -> SS * (list rmove * Z * Z * Z)) (e : Tei.engine SS) (p : position),
+  (3 <= size p <= 8)%N -> (0 <= Move.move p < 2 ^ 63)%Z -> rep_ok basis p -> reserves_match_board p ->
+  let r1 := Tei.step basis SS mk_searcher search e (TeiClient.newgame_line (Z.of_N (size p))) in
+  let r2 := Tei.step basis SS mk_searcher search (Tei.sr_eng r1) (TeiClient.position_line p) in
+  Tei.sr_status r1 = Tei.Running /\ Tei.sr_status r2 = Tei.Running /\
+  exists q, Tei.e_pos (Tei.sr_eng r2) = Some q /\ equal p q = true /\ equal q p = true /\ hash_of q = hash_of p /\
+            whiteStones q = whiteStones p /\ whiteCaps q = whiteCaps p /\ blackStones q = blackStones p /\ blackCaps q = blackCaps p /\
+            to_move_white q = to_move_white p /\ Move.move q = Move.move p.
+Proof. exact TeiClientFacts.client_position_line_equal. Qed.
+Print Assumptions C10_client_line_roundtrip.
